@@ -320,8 +320,10 @@ Related == CodeDone /\ CommentsDone /\ parses
 
 ----------------------------------------------------------------------------
 (* C18 *)
-Fmt(cfg, in, out) == done' = [x \in DOMAIN done \cup {<<cfg, in>>} |->
-                                IF x = <<cfg, in>> THEN out ELSE done[x]]
+\* formatting is a function of (configuration, text): a second run on the same text must agree
+Fmt(cfg, in, out) ==
+    /\ <<cfg, in>> \in DOMAIN done => done[<<cfg, in>>] = out
+    /\ done' = [x \in DOMAIN done \cup {<<cfg, in>>} |-> IF x = <<cfg, in>> THEN out ELSE done[x]]
 
 Idempotent ==
     \A x \in DOMAIN done :
